@@ -44,6 +44,11 @@ func (ck *Checker) replayAll(states []*instState) {
 			continue
 		}
 		pkg, _ := pkgOfEntry(st.in.Entry)
+		if st.in.Replay == "stubbed" {
+			ss := append([]string{}, st.in.Stubs...)
+			sort.Strings(ss)
+			pkg += "|" + strings.Join(ss, ",")
+		}
 		for _, k := range st.violOrder {
 			byPkg[pkg] = append(byPkg[pkg], replayReq{st, st.viols[k]})
 		}
@@ -71,11 +76,16 @@ func (ck *Checker) replayAll(states []*instState) {
 	wg.Wait()
 }
 
-func (ck *Checker) replayPkg(scratch, pkg string, reqs []replayReq) {
+func (ck *Checker) replayPkg(scratch, pkgKey string, reqs []replayReq) {
 	fail := func(msg string) {
 		for _, rq := range reqs {
 			rq.v.replay, rq.v.replayMsg = "error", msg
 		}
+	}
+	pkg := pkgKey
+	stubbed := false
+	if i := strings.Index(pkgKey, "|"); i >= 0 {
+		pkg, stubbed = pkgKey[:i], true
 	}
 	// harness functions of the package
 	var hs []string
@@ -93,7 +103,7 @@ func (ck *Checker) replayPkg(scratch, pkg string, reqs []replayReq) {
 		fmt.Fprintf(&sb, "\t\t%q: %s,\n", h, h)
 	}
 	sb.WriteString("\t})\n}\n")
-	tag := strings.ReplaceAll(pkg, "/", "_")
+	tag := sanitize(strings.ReplaceAll(pkgKey, "/", "_"))
 	testFile := filepath.Join(scratch, tag+"_replay_test.go")
 	os.WriteFile(testFile, []byte(sb.String()), 0o644)
 	// overlay json
@@ -108,6 +118,16 @@ func (ck *Checker) replayPkg(scratch, pkg string, reqs []replayReq) {
 	})
 	for k, v := range ck.extra {
 		repl[k] = v
+	}
+	if stubbed {
+		so, err := ck.stubOverlay(scratch, reqs[0].st.in)
+		if err != nil {
+			fail("stub overlay: " + err.Error())
+			return
+		}
+		for k, v := range so {
+			repl[k] = v
+		}
 	}
 	repl[filepath.Join(ck.repo, pkg, "zz_replay_test.go")] = testFile
 	ovb, _ := json.Marshal(map[string]interface{}{"Replace": repl})
@@ -130,7 +150,7 @@ func (ck *Checker) replayPkg(scratch, pkg string, reqs []replayReq) {
 			inputs[j] = iv.Hex
 		}
 		rfile := map[string]interface{}{"harness": fn, "params": rq.st.in.Params, "inputs": inputs, "property": rq.st.in.Property, "instance": rq.st.in.Name,
-			"violation": map[string]string{"kind": rq.v.Kind, "key": rq.v.Key, "site": rq.v.Site, "msg": rq.v.Msg}, "stubs": rq.v.Stubs,
+			"violation": map[string]string{"kind": rq.v.Kind, "key": rq.v.Key, "site": rq.v.Site, "msg": rq.v.Msg}, "stubs": rq.v.Stubs, "clock": rq.v.Clock, "stub_sets": rq.st.in.Stubs,
 			"how_to_replay": "gosym builds the package with the harness overlay (go test -c -overlay) and runs TestZZReplay with ZZVERIF_REPLAY=<this file>"}
 		b, _ := json.MarshalIndent(rfile, "", " ")
 		dir := filepath.Join("/verif/replays", rq.st.in.Property)
